@@ -451,6 +451,7 @@ def _run_case(case):
   out, err, cause, msg = [], None, None, None
   alias = None
   written = written_prefixes(case['specs'])
+  shared = [] if heap_plan(case) is not None else None
   try:
     it = p.make().iterate(source, ignore_error=bool(case.get('ignore')))
   except Exception as e:  # pylint: disable=broad-except
@@ -460,6 +461,9 @@ def _run_case(case):
       out.append(enc(x))
       if alias is None and written:
         alias = aliased_prefix(x, written, caller_ids)
+      if shared is not None:
+        # identity pattern: which containers of the output ARE containers of the caller's data
+        shared.append([list(p) for p, o in container_paths(x) if id(o) in caller_ids])
   except Exception as e:  # pylint: disable=broad-except
     err, msg = err_kind(e), str(e)[:60]
     if e.__cause__ is not None and str(e).startswith('Failed to call'):
@@ -483,7 +487,56 @@ def _run_case(case):
   threads_alive = _disown_pool_threads() if case.get('threads') else 0
   return dict(build=None, out=out, err=err, cause=cause, msg=msg, threads_alive=threads_alive,
               logs=[s.log for s in real_sinks], closed=[s.closed for s in real_sinks],
-              write_after_close=sum(s.write_after_close for s in real_sinks), mutated=mutated)
+              write_after_close=sum(s.write_after_close for s in real_sinks), mutated=mutated, shared=shared)
+
+
+def container_paths(obj, path=()):
+  """(path, object) of every container inside `obj`, the container itself first (pre-order, insertion order)"""
+  if isinstance(obj, (dict, list, tuple)):
+    yield path, obj
+    for k, v in (obj.items() if isinstance(obj, dict) else enumerate(obj)):
+      yield from container_paths(v, path + (k,))
+
+
+def heap_plan(case):
+  """The heap tie (model `pipeheap`, lean/MlModel/Model/PipeHeap.lean): for chains of sinks and un-batched assigns over
+  a plain list of records, one driver request per source record replaying the output routing of every assign on the
+  cell heap.  The function's outputs are computed here with the named library; an output that IS a container of the
+  current record (a function that returns its argument) is sent as a reference into the record.  -> [request..] or
+  None when the case is outside this domain (or its reference evaluation fails)."""
+  specs, src = case['specs'], case['src']
+  if case.get('threads') or case.get('ignore') or src.get('kind', 'list') != 'list' or src.get('fail'):
+    return None
+  assigns = [sp for sp in specs if sp['op'] == 'assign']
+  if not assigns or any(sp['op'] not in ('assign', 'sink') for sp in specs):
+    return None
+  for sp in assigns:
+    if sp.get('batch') or sp.get('fn_batch') or sp.get('fn') is None:
+      return None
+    ks = [sp['keys']['one']] if 'one' in sp['keys'] else list(sp['keys'].get('many', []))
+    flat = [kk for k in ks for kk in ([rk_json(n) for n, _ in k['dk']] + [s2 for _, s2 in k['dk']] if 'dk' in k else [k])]
+    if not ks or any('self' in k or 'lit' in k for k in flat):
+      return None
+  fns = [make_fn(sp['fn']) for sp in assigns]
+  reqs = []
+  try:
+    for item in src['items']:
+      cur = dec(item)
+      steps = []
+      for sp, fn in zip(assigns, fns):
+        names, in_keys = _norm_in(sp['in'])
+        if any('lit' in k for k in in_keys):
+          return None
+        res = ref_call(fn, names, [ref_get(cur, k) for k in in_keys])
+        outs = list(res) if isinstance(res, tuple) else [res]
+        where = {id(o): p for p, o in container_paths(cur)}
+        wire = [{'at': list(where[id(o)])} if isinstance(o, (dict, list, tuple)) and id(o) in where else enc(o) for o in outs]
+        steps.append({'keys': sp['keys'], 'outs': wire})
+        cur = ref_route(cur, _norm_out(sp['keys']), res)
+      reqs.append(dict(model='pipeheap', record=item, steps=steps))
+  except (CallError, Routing, Undefined):
+    return None
+  return reqs
 
 
 def _key_path(k):
